@@ -485,6 +485,12 @@ impl<'a> DocGen<'a> {
                     }
                     let tag = *self.rng.pick(&["em", "strong", "code", "span"]);
                     nodes.push(El::with(tag, vec![Node::Raw(w)]).node());
+                    if self.rng.chance(1, 3) {
+                        // a second element glued to the first (no text in between)
+                        let tag2 = *self.rng.pick(&["em", "strong", "code", "i"]);
+                        let w2 = self.tok.unique(self.rng, &self.p.clone());
+                        nodes.push(El::with(tag2, vec![Node::Raw(w2)]).node());
+                    }
                 } else {
                     s.push_str(&w);
                 }
